@@ -290,20 +290,7 @@ def _written_before(F, B, b, assume_bb):
         is_write = callee in ("core::ptr::write", "<*mut T>::write", "core::ptr::copy_nonoverlapping", "core::ptr::copy", "<core::mem::maybe_uninit::MaybeUninit<T>>::write") or (name == "write" and callee in F.bodies)
         if is_write and bi in dom.get(assume_bb, set()) and bi != assume_bb:
             return True
-        if is_write and bi != assume_bb:
-            # the write sits in a fill loop that the function runs through before the re-typing (zero elements need zero writes):
-            # some block of the write's own cycle dominates the call
-            back = B.reach(bi, normal_only=True)
-            for h in dom.get(assume_bb, set()):
-                if h != assume_bb and h in back and bi in B.reach(h, normal_only=True) and assume_bb not in _cycle(B, h, bi):
-                    return True
     return False
-
-
-def _cycle(B, h, w):
-    """Blocks on some cycle through both h and w."""
-    fh, fw = B.reach(h, normal_only=True), B.reach(w, normal_only=True)
-    return set(x for x in fh & fw if h in B.reach(x, normal_only=True) and w in B.reach(x, normal_only=True))
 
 
 def _root(n):
